@@ -243,7 +243,9 @@ func rulesRangeCode(p *Prog, r *Report) {
 	and := func(xs ...*qf) *qf { return &qf{Op: "and", Args: xs} }
 	or := func(xs ...*qf) *qf { return &qf{Op: "or", Args: xs} }
 	gate := func(A, B string) *qf { return and(at("LOC("+A+")"), at("LOC("+B+")"), at("FAM")) }
-	gt := func(A, B string) *qf { return and(at("LIC("+A+")"), at("LIC("+B+")"), gate(A, B), at("LATER("+A+","+B+")")) }
+	gt := func(A, B string) *qf {
+		return and(at("LIC("+A+")"), at("LIC("+B+")"), gate(A, B), at("LATER("+A+","+B+")"))
+	}
 	eq := func(A, B string) *qf {
 		return and(at("LIC("+A+")"), at("LIC("+B+")"), or(at("IDEQ"), and(gate(A, B), at("VEQ"))))
 	}
@@ -359,9 +361,11 @@ func unmappedNote(u []string) string {
 
 // abstractPosAtom maps a concrete atom of a position-comparing function onto an abstract proposition
 // about its two terms A (described by a) and B (described by b):
-//   LIC(X)  X is a license node            LOC(X)  X's id is in the range table
-//   FAM     both ids in the same family    VEQ     same version group
-//   LATER(X,Y)  X's version group is after Y's    IDEQ  the two ids are the same string
+//
+//	LIC(X)  X is a license node            LOC(X)  X's id is in the range table
+//	FAM     both ids in the same family    VEQ     same version group
+//	LATER(X,Y)  X's version group is after Y's    IDEQ  the two ids are the same string
+//
 // The license id of a term may be spelled through the accessor or through the fields.
 func abstractPosAtom(atom, a, b, roleL string, lk locKeys) (string, bool, bool) {
 	term := func(s string) string {
@@ -626,7 +630,6 @@ func canonAtom(a string) string {
 	}
 	return a
 }
-
 
 // naturalLoop: the blocks of the natural loop of header h.
 func naturalLoop(h *ssa.BasicBlock) map[*ssa.BasicBlock]bool {
